@@ -219,6 +219,10 @@ def run(ctx):
     # the feature `suppress_key_warnings` only silences diagnostics: the fallback (incl. `inherits`) is the same in that build
     sup = rng.sample(corpus, ctx.budget(300, 3000)) + [proj.gen_project(rng, opts) for _ in range(ctx.budget(200, 2000))]
     generic_pipeline_check(ctx, [], sup, oracle, "C03-suppress", suppress=True)
+    # a key read *through a reference* (`$t(a)`) is read by the same walk: every inherits map on 4 locales x presence pattern of the target,
+    # the referencing keys themselves reached through the fallback (chains of two and three hops; family and oracle shared with C06)
+    from . import c06
+    generic_pipeline_check(ctx, [], c06.walk_family(rng, ctx.budget(500, 8000)), c06.walk_family_oracle, "C03-through-references")
     # the generated `match locale { L::x | L::defaulted… => … }` of every accessor kind (string, interpolation, number / boolean literal,
     # range, plural, subkeys) compiled and run: a locale that falls back must be covered by an arm and render the effective locale's value
     from . import probe
